@@ -102,6 +102,18 @@ func RenderSnapFile(entries []SnapEntry) string {
 	return sb.String()
 }
 
+// RenderSnapFileLoose lays the entries out the way a hand-edited or merged file may
+// look: runs of blank lines between the entries and at both ends (readers skip them; a
+// rewrite produces the shorter canonical form).
+func RenderSnapFileLoose(r interface{ IntN(int) int }, entries []SnapEntry) string {
+	var sb strings.Builder
+	for _, e := range entries {
+		sb.WriteString(strings.Repeat("\n", 1+r.IntN(16)) + "[" + e.ID + "]\n" + e.Body + "\n---\n")
+	}
+	sb.WriteString(strings.Repeat("\n", r.IntN(40)))
+	return sb.String()
+}
+
 // FindEntries returns the indexes of entries with the given id.
 func FindEntries(entries []SnapEntry, id string) []int {
 	var out []int
